@@ -57,6 +57,17 @@ var envKeysSet []string
 
 var feCounter int
 
+// the same document as a human would write it: leading newline, indentation, trailing newline
+func prettyJSON(b []byte) []byte {
+	var buf bytes.Buffer
+	buf.WriteString("\n  ")
+	if err := json.Indent(&buf, b, "  ", "\t"); err != nil {
+		return b
+	}
+	buf.WriteString("\n")
+	return buf.Bytes()
+}
+
 // the data value for the remaining front ends (json is in run.go)
 func frontEndData2(c *Case) (any, func()) {
 	switch c.Fe {
@@ -66,8 +77,11 @@ func frontEndData2(c *Case) (any, func()) {
 			panic(err)
 		}
 		// every other request streams its body (chunked transfer encoding: the length is not known in advance)
-		var body io.Reader = bytes.NewReader(b)
 		feCounter++
+		if feCounter%3 == 0 {
+			b = prettyJSON(b) // a pretty-printed document that starts with a newline and ends with one
+		}
+		var body io.Reader = bytes.NewReader(b)
 		if feCounter%2 == 0 {
 			body = struct{ io.Reader }{body}
 		}
@@ -103,7 +117,7 @@ func frontEndData2(c *Case) (any, func()) {
 		}
 	case "zjson":
 		b, _ := json.Marshal(concInput(c.Input, c.Schema, "json"))
-		return zjson.Decode(bytes.NewReader(b)), func() {}
+		return zjson.Decode(bytes.NewReader(prettyJSON(b))), func() {}
 	}
 	panic("front end " + c.Fe)
 }
@@ -275,8 +289,18 @@ func famFrontends(tw *traceWriter, r *rand.Rand, n int) {
 			if flat {
 				in = mapIn(top...)
 			}
-			c := &Case{ID: id + "-" + fe, Mode: "parse", Fe: fe, Schema: sch, Input: in}
+			root := sch
+			if i%4 == 3 {
+				root = ptr(sch, false) // the same record behind a top-level pointer
+			}
+			c := &Case{ID: id + "-" + fe, Mode: "parse", Fe: fe, Schema: root, Input: in}
+			// url-encoded values keep their surrounding whitespace (only a value that is ALL whitespace is absent)
+			save := strStyle
+			if (fe == "form" || fe == "query" || fe == "map") && i%2 == 1 {
+				strStyle = 1
+			}
 			tw.emitCase(c, "fe", false)
+			strStyle = save
 		}
 		tw.grp = ""
 	}
@@ -333,7 +357,12 @@ func famFlat(tw *traceWriter, r *rand.Rand, n int) {
 				in = mapIn(top...)
 			}
 			c := &Case{ID: fmt.Sprintf("fl%d-%s", i, fe), Mode: "parse", Fe: fe, Schema: sch, Input: in}
+			save := strStyle
+			if (fe == "form" || fe == "query") && i%2 == 1 {
+				strStyle = 1
+			}
 			tw.emitCase(c, "", false)
+			strStyle = save
 		}
 	}
 }
